@@ -82,4 +82,13 @@ structure ReqView where
   rawQuery : Str
   deriving Repr, DecidableEq
 
+/-- which exit `(*fetcher).handleUpstreamResponse` takes: the handler it calls (with the `noRetry` argument it passes to
+    `handleUpstream416`), or none (`return nil, nil`: the response is passed through uncached). -/
+inductive Dispatch where
+  | ok200
+  | notModified
+  | unsat416 (noRetry : Bool)
+  | passThrough
+  deriving Repr, DecidableEq
+
 end Rv.SrcViews
